@@ -128,6 +128,12 @@ func (m *lenMachine) call(in *Interp, st *State, call *ast.CallExpr, name string
 		}
 		return nil
 	}
+	// a straight-line new helper is inlined by the interpreter: its own statements say what it does to the stack
+	if callee := m.c.Callee(call); callee != nil && in.Inline != nil && in.Inline(callee) {
+		if fd := m.c.DeclOf(callee); fd != nil && fd.Body != nil && straightLine(fd.Body) {
+			return nil
+		}
+	}
 	// a call that receives the VM may change the stack arbitrarily
 	touches := false
 	if recv != nil && recv.Op == "var" && m.vmVars[recv.Name] {
@@ -185,3 +191,16 @@ func (m *lenMachine) assign(in *Interp, st *State, lhs ast.Expr, lv *T, val *T) 
 
 // finalLen: the stack length at the end of a path.
 func (m *lenMachine) finalLen(st *State) *linForm { return m.cur(st) }
+
+// straightLine: no branching, loops, closures, defers or gotos in the body.
+func straightLine(b *ast.BlockStmt) bool {
+	ok := true
+	ast.Inspect(b, func(n ast.Node) bool {
+		switch n.(type) {
+		case *ast.IfStmt, *ast.ForStmt, *ast.RangeStmt, *ast.SwitchStmt, *ast.TypeSwitchStmt, *ast.SelectStmt, *ast.FuncLit, *ast.DeferStmt, *ast.GoStmt, *ast.BranchStmt, *ast.LabeledStmt:
+			ok = false
+		}
+		return ok
+	})
+	return ok
+}
